@@ -138,6 +138,7 @@ def taint_function(fi: FuncInfo):
 
 def check(ctx):
     repo = ctx.repo
+    ctx.rule("R09.6", "no function writes into an array it was handed (output-parameter table excepted): a run leaves its inputs as it found them", 1)
     ctx.rule("R09.1", "every nondeterminism source (random, clock, hash, process identity) flows only into log text, the exempt "
                       "timestamp fields, a cache key, or a raise/continue decision", 8)
     ctx.rule("R09.2", "sets are consumed only by membership, size, set algebra or comparison (iteration only into messages)", 8)
@@ -180,6 +181,8 @@ def check(ctx):
     ok = all(any("monitor" in t for t in g) for _, _, g in stores)
     ctx.ob("R09.5", "os.environ writes", ok, detail=stores, where="repo", construct="os.environ stores",
            message=f"environment written unconditionally: {stores}", consequence="a run changes the behaviour of later runs in the same process")
+    from ..effects import input_purity
+    input_purity(ctx, "R09.6", 'solving overwrites an array owned by the caller (e.g. the induced vector potential of the seed Solution): the same call repeated in the same process starts from different data, so repeated runs are no longer bit-identical')
     ctx.assume("Triangle, SuperLU, qhull, BLAS threading and numba's fastmath code generation are deterministic on one machine (external)")
     ctx.decline("bit-identical results across machines / library versions")
 
